@@ -107,6 +107,36 @@ def replay(obligation, extra):
                     if err:
                         return dict(found=True, input='application calls close(1001, b"going") at the %s event; server then sends %s%s%s%s' % (at, 'a Ping and then ' if ping else '', sc.hex(), ' and more frames' if trailing else '', ', one byte per read' if cuts else ''),
                                     expected='exactly one Close (1001, going), later sends refused, Closed, graceful Disconnected, socket closed', observed=err)
+    # the write that carries the client's Close delivers its bytes and THEN fails (e.g. a send timeout): the Close frame is
+    # on the wire, so every later send must still be refused and no second Close may follow
+    import socket as _socket
+    for exc in (_socket.timeout('timed out'), OSError(104, 'reset')):
+        tried += 1
+        st = {}
+
+        def react(ws, ev, k, run):
+            if ev.name == 'text' and ev.text == 'go':
+                ws.close(1000, b'bye')
+                st['wire_after_close'] = len(run.sock.out)
+                res = []
+                for fn in (lambda: ws.send_text('late'), lambda: ws.send_binary(b'late'), lambda: ws.send_ping(b'p'), lambda: ws.close(1000, b'again')):
+                    try:
+                        fn()
+                        res.append('returned')
+                    except errors_mod.WebSocketError:
+                        res.append('WebSocketError')
+                    except Exception as e:      # noqa
+                        res.append(repr(e))
+                st['later'] = res
+        from lomond import errors as errors_mod
+        run = harness.drive(stream=ref.server_frame(1, b'go'), react=react, connect_kwargs=dict(ping_rate=0),
+                            sock_kwargs=dict(fail_send_at=1, send_exc=exc, fail_after_bytes_left=True))
+        ops = [o for o, p in wire_ops(run)]
+        if 'later' in st and (ops.count(8) > 1 or (8 in ops and ops[ops.index(8) + 1:]) or any(r == 'returned' for r in st['later'][:3])):
+            return dict(found=True, input='application calls close(1000, b"bye") at a text event; the sendall carrying the Close delivers its bytes and then raises %r; '
+                        'the application then calls send_text, send_binary, send_ping and close again' % (exc,),
+                        expected='one Close frame, nothing after it, the later sends raise WebSocketError',
+                        observed='frames written (opcodes) %r; later calls: %r' % (ops, st['later']))
     # the longest reason a control frame can carry (123 bytes of UTF-8), both directions
     for reason in (b'r' * 123, ('\u20ac' * 41).encode('utf-8')):
         tried += 1
